@@ -85,7 +85,10 @@ def r5_1(prog, rep):
         f = prog.fn(q)
         kr = [x for x in calls_in(f.node) if dotted(x.func) in ("linalg.khatri_rao", "scipy.linalg.khatri_rao")]
         if len(kr) != 1:
-            raise AnalysisError(f"{q}: expected one khatri_rao call")
+            obl(rep, f, f.node, "R5.1", False, f"{f.name}: the block is the row-wise Kronecker product khatri_rao(<factor>.T, <effect>.T).T", "",
+                f"{f.name} contains {len(kr)} khatri_rao call(s): the group-specific block is not built as indicators(factor) x effect columns by the "
+                "library product any more (a hand-written replacement has to be re-confirmed against the slot order and the treatment of missing values)")
+            continue
         d = f.params[1] if len(f.params) > 1 else "data"
         fac, eff = fac.format(d=d), eff.format(d=d)
         # the product is transposed back
